@@ -163,6 +163,11 @@ theorem int_away (t0 t1 n : Int) (hal : (t1 - t0) % DAY = 0)
     · exact Or.inl ⟨a, by unfold DAY; omega⟩
     · exact Or.inr ⟨a, by unfold DAY; omega⟩
 
+/-- no bump given: one day per step towards `t1` -/
+theorem none_default (t0 t1 : Int) :
+    drange t0 t1 .none = drange t0 t1 (.int (if t0 < t1 then 1 else -1)) := by
+  simp [drange]
+
 /-! ### period strings -/
 
 /-- compound period strings (two or more parts) are iterated with `dt_bump`; stated for any bump that moves
